@@ -30,6 +30,7 @@
 #include "colvarbias.h"
 #include "colvarbias_abf.h"
 #include "colvarbias_meta.h"
+#include "colvarbias_opes.h"
 #include "colvargrid.h"
 #undef private
 #undef protected
@@ -99,6 +100,20 @@ struct c14_session : public vsim_session {
         o << "\n";
       }
       if (m->hills_energy) { o << "OWNGRID"; dump_sum(o, "grid", m->hills_energy); o << "\n"; }
+      return true;
+    }
+    if (cmd == "dumpopes") {
+      colvarbias_opes *op = dynamic_cast<colvarbias_opes *>(cvm::main()->bias_by_name(a[0]));
+      if (!op) { o << "OPES none\n"; return true; }
+      o << "OPES idx=" << proxy->replica_index() << " step=" << cvm::step_absolute() << " nwalkers=" << op->m_num_walkers
+        << " counter=" << op->m_counter << " nk=" << op->m_kernels.size() << " kernels";
+      for (auto const &k : op->m_kernels) {
+        o << " " << vs_hex(k.m_height) << ":";
+        for (size_t i = 0; i < k.m_center.size(); i++) o << (i ? "," : "") << vs_hex(k.m_center[i]);
+        o << ":";
+        for (size_t i = 0; i < k.m_sigma.size(); i++) o << (i ? "," : "") << vs_hex(k.m_sigma[i]);
+      }
+      o << " zed=" << vs_hex(op->m_zed) << " kdenorm=" << vs_hex(op->m_kdenorm) << "\n";
       return true;
     }
     if (cmd == "share") {
